@@ -82,3 +82,18 @@ func VerifC20CachedConfirms(c *ConfirmCache) (list []VerifC20Confirm, heights in
 func VerifC20StableBlockLoop(pm *ProtocolManager) { pm.stableBlockLoop() }
 
 const VerifC20StableBlockSignal = testStableBlock
+
+// VerifC20LoopVarShared reports whether closures made in a `for ... range` loop of this file share
+// one loop variable, as the module's `go 1.14` line says they do. The harness lists this file for
+// rewriting (the unreachable go statement makes the rewriter touch it), so the answer tells whether
+// rewritten files are still compiled with the module's language version.
+func VerifC20LoopVarShared() bool {
+	var fs []func() int
+	for _, v := range []int{1, 2} {
+		fs = append(fs, func() int { return v })
+	}
+	if len(fs) == 0 {
+		go func() {}()
+	}
+	return fs[0]() == 2
+}
